@@ -1031,3 +1031,375 @@ Proof.
   - right. cbn [g_members abs_vg]. rewrite N', ML.
     destruct (Nat.eqb_spec (Z.to_nat c) 0); [lia|]. rewrite Z2Nat.id by lia. reflexivity.
 Qed.
+
+(* ---- attach / detach / create / delete -------------------------------------------------------------- *)
+Lemma WFpack_access : forall g w, WFpack g -> WFpack (set_access g w) /\ WFpack (set_first_attach g w).
+Proof. intros g w P. split; eapply WFpack_bits; eauto; reflexivity. Qed.
+
+Lemma WFpack_saved : forall g, WFpack g -> WFpack (set_saved g (fst (vpackvg g))).
+Proof.
+  intros g P. pose proof P as [[Lt Lr Hn Hm Hu] Fm Wn Wc X Hf A Hno [V V4]].
+  constructor; auto; [constructor; auto|]. cbn [version flags set_saved]. apply pack_version; auto.
+Qed.
+
+Lemma core_access : forall g w, core (set_access g w) = core g /\ core (set_first_attach g w) = core g.
+Proof. intros. split; reflexivity. Qed.
+
+Lemma saved_core : forall f k g g', saved f k g -> core g' = core g -> saved f k g'.
+Proof. intros f k g g' (g0 & P & O & T & C) E. exists g0. split; [exact P|split; [exact O|split; [exact T|congruence]]]. Qed.
+
+Lemma abs_vg_core : forall hg k g g', core g' = core g -> abs_vg hg k g' = set_w (abs_vg hg k g) (attached_in k hg && access g').
+Proof.
+  intros hg k g g' E. unfold core in E. injection E as e1 e2 e3. unfold abs_vg, set_w.
+  cbn [g_name g_class g_members]. rewrite e1, e2, e3. reflexivity.
+Qed.
+
+Lemma sim_vgnew : forall m h r, Inv m -> sim_step m (OVgNew h r).
+Proof.
+  intros m h r I. unfold sim_step. cbn [mstep step hg vgs abs_state].
+  destruct (tget h (m_hg m)) eqn:Eh; [left; reflexivity|].
+  destruct ((1 <=? r) && (r <=? 65535)) eqn:C; cbn [negb]; [|file_same I; right; reflexivity].
+  apply andb_true_iff in C as [C1 C2]. apply Z.leb_le in C1. apply Z.leb_le in C2.
+  unfold abs_table. rewrite tget_tmap.
+  destruct (tget r (m_vg m)) eqn:Eg; cbn [option_map]; [file_same I; right; reflexivity|].
+  right. cbn [fst snd]. split; [|split; [|right; reflexivity]].
+  - constructor; cbn [m_vg m_vs m_file m_hg m_hs]; try apply I.
+    + apply sorted_tins; auto. apply I.
+    + apply Forall_forall. intros x Hx. apply keys_tins_In in Hx. destruct Hx as [Hx|Hx].
+      * subst. unfold key_ok, MAX_REF. lia.
+      * pose proof (i_rg m I) as F. rewrite Forall_forall in F. auto.
+    + intros k g E. destruct (Z.eq_dec k r).
+      * subst. rewrite tget_tins_same in E by auto. inversion E; subst. split; [apply WFpack_new|reflexivity].
+      * rewrite tget_tins_other in E by auto. apply (i_vg m I); auto.
+    + intros k g E Mk. rewrite attached_tins. destruct (Z.eq_dec k r).
+      * subst. rewrite Z.eqb_refl. reflexivity.
+      * rewrite tget_tins_other in E by auto. rewrite (i_mk m I k g E Mk). apply orb_true_r.
+    + intros k g E Mk. destruct (Z.eq_dec k r).
+      * subst. rewrite tget_tins_same in E by auto. inversion E; subst. discriminate.
+      * rewrite tget_tins_other in E by auto. apply (i_sv m I); auto.
+    + intros k H. destruct (Z.eq_dec k r).
+      * subst. rewrite tget_tins_same by auto. discriminate.
+      * rewrite tget_tins_other by auto. apply (i_fs m I); auto.
+    + intros h' r' H. apply In_tins in H. destruct H as [H|H].
+      * inversion H; subst. rewrite tget_tins_same by auto. discriminate.
+      * destruct (Z.eq_dec r' r); [subst; rewrite tget_tins_same by auto; discriminate|].
+        rewrite tget_tins_other by auto. eapply (i_hg m I); eauto.
+  - unfold abs_state. cbn [m_vg m_vs m_hg m_hs]. f_equal.
+    unfold abs_table. rewrite <- tins_tmap.
+    replace (abs_vg (tins h r (m_hg m)) r (new_vgroup r)) with (mkvg [] [] [] true).
+    + f_equal. apply tmap_ext_in. intros k v Hk. unfold abs_vg. rewrite attached_tins.
+      destruct (Z.eqb_spec r k); [|reflexivity]. subst.
+      apply (in_map fst) in Hk. apply tget_none_notin in Eg. contradiction.
+    + unfold abs_vg. rewrite attached_tins, Z.eqb_refl. reflexivity.
+Qed.
+
+Lemma sim_vgattach : forall m h r w, Inv m -> sim_step m (OVgAttach h r w).
+Proof.
+  intros m h r w I. destruct (Inv_tables m I) as (ND & _). unfold sim_step. cbn [mstep step hg vgs abs_state].
+  destruct (tget h (m_hg m)) eqn:Eh; [left; reflexivity|].
+  unfold abs_table. rewrite tget_tmap.
+  destruct (tget r (m_vg m)) as [g|] eqn:Eg; cbn [option_map]; [|file_same I; right; reflexivity].
+  destruct (i_vg m I r g Eg) as [P Eo].
+  unfold attached, m_attached. cbn [hg abs_state].
+  set (g' := if attached_in r (m_hg m) then set_access g (access g || w) else set_first_attach g w).
+  assert (Pg : WFpack g' /\ oref g' = r /\ core g' = core g /\
+               access g' = (if attached_in r (m_hg m) then access g || w else w) /\
+               (marked g' = true -> marked g = true)).
+  { unfold g'. destruct (WFpack_access g (access g || w) P) as [Pa _]. destruct (WFpack_access g w P) as [_ Pf].
+    destruct (attached_in r (m_hg m)).
+    - split; [exact Pa|]. split; [exact Eo|]. split; [reflexivity|]. split; [reflexivity|]. cbn. auto.
+    - split; [exact Pf|]. split; [exact Eo|]. split; [reflexivity|]. split; [reflexivity|]. cbn. intro; discriminate. }
+  destruct Pg as (P' & O' & C' & A' & K').
+  right. cbn [fst snd]. split; [|split; [|right; reflexivity]].
+  - constructor; cbn [m_vg m_vs m_file m_hg m_hs]; try rewrite keys_tset; try apply I.
+    + intros k gk E. rewrite tget_tset, Eg in E. destruct (Z.eqb_spec k r).
+      * subst k. injection E as E'. subst gk. auto.
+      * apply (i_vg m I); auto.
+    + intros k gk E Mk. rewrite attached_tins. rewrite tget_tset, Eg in E. destruct (Z.eqb_spec k r).
+      * subst. rewrite Z.eqb_refl. reflexivity.
+      * rewrite (i_mk m I k gk E Mk). apply orb_true_r.
+    + intros k gk E Mk. rewrite tget_tset, Eg in E. destruct (Z.eqb_spec k r).
+      * subst k. injection E as E'. subst gk. apply (saved_core _ _ g); auto. apply (i_sv m I); auto.
+        destruct (marked g) eqn:Mg; auto. unfold g' in Mk.
+        rewrite (i_mk m I r g Eg Mg) in Mk. cbn in Mk. congruence.
+      * apply (i_sv m I); auto.
+    + intros k H. rewrite tget_tset, Eg. destruct (k =? r); [discriminate|]. apply (i_fs m I); auto.
+    + intros h' r' H. rewrite tget_tset, Eg. destruct (r' =? r); [discriminate|].
+      apply In_tins in H. destruct H as [H|H]; [inversion H; subst; congruence|eapply (i_hg m I); eauto].
+  - unfold abs_state. cbn [m_vg m_vs m_hg m_hs]. f_equal.
+    rewrite (abs_change (m_hg m) (tins h r (m_hg m)) (m_vg m) r g g' ND Eg).
+    + f_equal. rewrite (abs_vg_core _ _ g g' C'), A'. rewrite attached_tins, Z.eqb_refl. cbn [orb andb].
+      unfold abs_vg, set_w. cbn [g_name g_class g_members g_w].
+      destruct (attached_in r (m_hg m)); reflexivity.
+    + intros k N. rewrite attached_tins. destruct (Z.eqb_spec r k); [congruence|reflexivity].
+Qed.
+
+(** what Vdetach's write-back leaves: an unmarked, stored vgroup with the same content *)
+Lemma write_back_spec : forall file g r, WFpack g -> oref g = r -> StronglySorted Z.lt (keys file) ->
+  (marked g = false -> saved file r g) ->
+  let '(f, g') := write_back file g in
+  WFpack g' /\ oref g' = r /\ core g' = core g /\ access g' = access g /\ marked g' = false /\
+  StronglySorted Z.lt (keys f) /\ saved f r g' /\
+  (forall k, k <> r -> tget k f = tget k file) /\ tget r f <> None.
+Proof.
+  intros file g r P O S Sv. unfold write_back. destruct (marked g) eqn:Mk.
+  - destruct (vpackvg g) as [ver b] eqn:Ep.
+    assert (Ev : ver = fst (vpackvg g)) by (rewrite Ep; reflexivity).
+    assert (Eb : b = snd (vpackvg g)) by (rewrite Ep; reflexivity).
+    split; [rewrite Ev; apply WFpack_saved; auto|]. split; [exact O|]. split; [reflexivity|].
+    split; [reflexivity|]. split; [reflexivity|]. split; [apply sorted_tput; auto|].
+    split; [|split].
+    + exists g. split; [exact P|split; [exact O|split; [|reflexivity]]].
+      rewrite O, tget_tput, Z.eqb_refl, Eb. reflexivity.
+    + intros k N. rewrite O, tget_tput. destruct (Z.eqb_spec k r); [contradiction|reflexivity].
+    + rewrite O, tget_tput, Z.eqb_refl. discriminate.
+  - specialize (Sv eq_refl). split; [exact P|]. split; [exact O|]. split; [reflexivity|]. split; [reflexivity|].
+    split; [exact Mk|]. split; [exact S|]. split; [exact Sv|]. split; [reflexivity|].
+    destruct Sv as (g0 & _ & _ & T & _). rewrite T. discriminate.
+Qed.
+
+Lemma sim_vgdetach : forall m h, Inv m -> sim_step m (OVgDetach h).
+Proof.
+  intros m h I. destruct (Inv_tables m I) as (ND & _). unfold sim_step. cbn [mstep step hg vgs abs_state].
+  destruct (tget h (m_hg m)) as [r|] eqn:Eh; [|file_same I; right; reflexivity].
+  unfold abs_table. rewrite tget_tmap.
+  destruct (tget r (m_vg m)) as [g|] eqn:Eg; cbn [option_map]; [|left; reflexivity].
+  destruct (i_vg m I r g Eg) as [P Eo].
+  pose proof (write_back_spec (m_file m) g r P Eo (i_sf m I) (i_sv m I r g Eg)) as WB.
+  destruct (write_back (m_file m) g) as [f g'].
+  destruct WB as (P' & O' & C' & A' & M' & S' & Sv' & Fo & Fr).
+  right. cbn [fst snd]. split; [|split; [|right; reflexivity]].
+  - constructor; cbn [m_vg m_vs m_file m_hg m_hs]; try rewrite keys_tset; try apply I; auto.
+    + intros k gk E. rewrite tget_tset, Eg in E. destruct (Z.eqb_spec k r).
+      * subst k. injection E as E'. subst gk. auto.
+      * apply (i_vg m I); auto.
+    + intros k gk E Mk. rewrite tget_tset, Eg in E. destruct (Z.eqb_spec k r).
+      * subst k. injection E as E'. subst gk. congruence.
+      * rewrite (attached_tdel_other _ h r k Eh) by auto. apply (i_mk m I k gk); auto.
+    + intros k gk E Mk. rewrite tget_tset, Eg in E. destruct (Z.eqb_spec k r).
+      * subst k. injection E as E'. subst gk. auto.
+      * destruct (i_sv m I k gk E Mk) as (g0 & P0 & O0 & T0 & C0). exists g0.
+        split; [exact P0|split; [exact O0|split; [rewrite Fo by auto; exact T0|exact C0]]].
+    + intros k H. rewrite tget_tset, Eg. destruct (Z.eqb_spec k r); [discriminate|].
+      apply (i_fs m I). rewrite <- Fo by auto. exact H.
+    + intros h' r' H. rewrite tget_tset, Eg. destruct (r' =? r); [discriminate|].
+      apply In_tdel in H. eapply (i_hg m I); eauto.
+  - unfold abs_state. cbn [m_vg m_vs m_hg m_hs]. f_equal.
+    rewrite (abs_change (m_hg m) (tdel h (m_hg m)) (m_vg m) r g g' ND Eg)
+      by (intros k N; apply (attached_tdel_other _ h r k Eh N)).
+    rewrite (abs_vg_core _ _ g g' C'), A'.
+    destruct (attached_in r (tdel h (m_hg m))) eqn:At; cbn [andb].
+    + unfold abs_table. rewrite tset_same; [reflexivity|]. rewrite tget_tmap, Eg. cbn [option_map].
+      f_equal. unfold abs_vg, set_w. cbn [g_name g_class g_members g_w].
+      rewrite (attached_of_handle _ _ _ Eh). reflexivity.
+    + reflexivity.
+Qed.
+
+Lemma sim_vdelete : forall m r, Inv m -> sim_step m (OVDelete r).
+Proof.
+  intros m r I. unfold sim_step. cbn [mstep step vgs abs_state].
+  destruct (u16 r) eqn:U; cbn [negb]; [|left; reflexivity].
+  unfold abs_table. rewrite tget_tmap.
+  destruct (tget r (m_vg m)) as [g|] eqn:Eg; cbn [option_map]; [|file_same I; right; reflexivity].
+  unfold attached, m_attached. cbn [hg abs_state].
+  destruct (attached_in r (m_hg m)) eqn:At; [left; reflexivity|].
+  assert (Mk : marked g = false).
+  { destruct (marked g) eqn:Mg; auto. rewrite (i_mk m I r g Eg Mg) in At. discriminate. }
+  destruct (i_sv m I r g Eg Mk) as (g0 & _ & _ & T0 & _). rewrite T0.
+  right. cbn [fst snd]. split; [|split; [|right; reflexivity]].
+  - constructor; cbn [m_vg m_vs m_file m_hg m_hs]; try apply I.
+    + apply sorted_tdel. apply I.
+    + apply Forall_forall. intros x Hx. apply keys_tdel_In in Hx.
+      pose proof (i_rg m I) as F. rewrite Forall_forall in F. auto.
+    + apply sorted_tdel. apply I.
+    + intros k gk E. destruct (Z.eq_dec k r).
+      * subst. rewrite tget_tdel_same in E by apply I. discriminate.
+      * rewrite tget_tdel_other in E by auto. apply (i_vg m I); auto.
+    + intros k gk E Mg. destruct (Z.eq_dec k r).
+      * subst. rewrite tget_tdel_same in E by apply I. discriminate.
+      * rewrite tget_tdel_other in E by auto. apply (i_mk m I k gk); auto.
+    + intros k gk E Mg. destruct (Z.eq_dec k r).
+      * subst. rewrite tget_tdel_same in E by apply I. discriminate.
+      * rewrite tget_tdel_other in E by auto.
+        destruct (i_sv m I k gk E Mg) as (g1 & P1 & O1 & T1 & C1). exists g1.
+        split; [exact P1|split; [exact O1|split; [rewrite tget_tdel_other by auto; exact T1|exact C1]]].
+    + intros k H. destruct (Z.eq_dec k r).
+      * subst. rewrite tget_tdel_same in H by apply I. contradiction.
+      * rewrite tget_tdel_other by auto. rewrite tget_tdel_other in H by auto. apply (i_fs m I); auto.
+    + intros h' r' H. destruct (Z.eq_dec r' r).
+      * subst. rewrite (attached_of_In _ _ _ H) in At. discriminate.
+      * rewrite tget_tdel_other by auto. eapply (i_hg m I); eauto.
+  - unfold abs_state. cbn [m_vg m_vs m_hg m_hs]. f_equal. unfold abs_table. rewrite tdel_tmap. reflexivity.
+Qed.
+
+Lemma sim_putraw : forall m r b, Inv m -> sim_step m (OPutRaw r b).
+Proof. intros. left. reflexivity. Qed.
+
+(* ---- vdatas ------------------------------------------------------------------------------------------ *)
+Lemma sim_vsnew : forall m r n c, Inv m -> sim_step m (OVsNew r n c).
+Proof.
+  intros m r n c I. unfold sim_step. cbn [mstep step vss abs_state].
+  destruct ((1 <=? r) && (r <=? 65535)) eqn:C; cbn [negb]; [|file_same I; right; reflexivity].
+  apply andb_true_iff in C as [C1 C2]. apply Z.leb_le in C1. apply Z.leb_le in C2.
+  destruct (tget r (m_vs m)) eqn:Es; [file_same I; right; reflexivity|].
+  destruct (name_ok n && name_ok c); [|left; reflexivity].
+  right. cbn [fst snd]. split; [|split; [reflexivity|right; reflexivity]].
+  constructor; cbn [m_vg m_vs m_file m_hg m_hs]; try apply I.
+  - apply sorted_tins; auto. apply I.
+  - apply Forall_forall. intros x Hx. apply keys_tins_In in Hx. destruct Hx as [Hx|Hx].
+    + subst. unfold key_ok, MAX_REF. lia.
+    + pose proof (i_rs m I) as F. rewrite Forall_forall in F. auto.
+  - intros h' r' H. destruct (Z.eq_dec r' r); [subst; rewrite tget_tins_same by auto; discriminate|].
+    rewrite tget_tins_other by auto. eapply (i_hs m I); eauto.
+Qed.
+
+Lemma sim_vsdelete : forall m r, Inv m -> sim_step m (OVSDelete r).
+Proof.
+  intros m r I. unfold sim_step. cbn [mstep step vss abs_state].
+  destruct (u16 r); cbn [negb]; [|left; reflexivity].
+  destruct (tget r (m_vs m)) eqn:Es; [|file_same I; right; reflexivity].
+  unfold vs_attached, m_vs_attached. cbn [hs abs_state].
+  destruct (attached_in r (m_hs m)) eqn:At; [left; reflexivity|].
+  right. cbn [fst snd]. split; [|split; [reflexivity|right; reflexivity]].
+  constructor; cbn [m_vg m_vs m_file m_hg m_hs]; try apply I.
+  - apply sorted_tdel. apply I.
+  - apply Forall_forall. intros x Hx. apply keys_tdel_In in Hx.
+    pose proof (i_rs m I) as F. rewrite Forall_forall in F. auto.
+  - intros h' r' H. destruct (Z.eq_dec r' r).
+    + subst. rewrite (attached_of_In _ _ _ H) in At. discriminate.
+    + rewrite tget_tdel_other by auto. eapply (i_hs m I); eauto.
+Qed.
+
+Lemma sim_vsattach : forall m h r, Inv m -> sim_step m (OVsAttach h r).
+Proof.
+  intros m h r I. unfold sim_step. cbn [mstep step vss hs abs_state].
+  destruct (tget h (m_hs m)); [left; reflexivity|].
+  destruct (tget r (m_vs m)) eqn:Es; [|file_same I; right; reflexivity].
+  right. cbn [fst snd]. split; [|split; [reflexivity|right; reflexivity]].
+  constructor; cbn [m_vg m_vs m_file m_hg m_hs]; try apply I.
+  intros h' r' H. apply In_tins in H. destruct H as [H|H]; [inversion H; subst; congruence|eapply (i_hs m I); eauto].
+Qed.
+
+Lemma sim_vsdetach : forall m h, Inv m -> sim_step m (OVsDetach h).
+Proof.
+  intros m h I. unfold sim_step. cbn [mstep step hs abs_state].
+  destruct (tget h (m_hs m)); [|file_same I; right; reflexivity].
+  right. cbn [fst snd]. split; [|split; [reflexivity|right; reflexivity]].
+  constructor; cbn [m_vg m_vs m_file m_hg m_hs]; try apply I.
+  intros h' r' H. apply In_tdel in H. eapply (i_hs m I); eauto.
+Qed.
+
+(* ---- reopen ------------------------------------------------------------------------------------------- *)
+Lemma reloaded_core : forall g, WFpack g -> core (reloaded g) = core g.
+Proof.
+  intros g P. destruct P. unfold core. rewrite reloaded_members by auto. unfold reloaded; cbn [vgname vgclass].
+  rewrite !norm_view by auto. reflexivity.
+Qed.
+
+Lemma tins_head : forall A (t : list (Z * A)) k v, Forall (fun x => k < x) (keys t) -> tins k v t = (k, v) :: t.
+Proof.
+  intros A t k v F. destruct t as [|[k' v'] t]; [reflexivity|]. cbn [tins].
+  inversion F; subst. destruct (Z.ltb_spec k k'); [reflexivity|lia].
+Qed.
+
+Lemma sorted_ext : forall l1 l2, StronglySorted Z.lt l1 -> StronglySorted Z.lt l2 ->
+  (forall x, In x l1 <-> In x l2) -> l1 = l2.
+Proof.
+  induction l1 as [|a l1]; intros l2 S1 S2 H.
+  - destruct l2 as [|b l2]; [reflexivity|]. exfalso. apply (H b). left; reflexivity.
+  - destruct l2 as [|b l2]; [exfalso; apply (H a); left; reflexivity|].
+    inversion S1 as [|? ? S1' F1]; inversion S2 as [|? ? S2' F2]; subst.
+    rewrite Forall_forall in F1, F2.
+    assert (a = b).
+    { destruct (proj1 (H a) (or_introl eq_refl)) as [E|E]; [auto|].
+      destruct (proj2 (H b) (or_introl eq_refl)) as [E'|E']; [auto|].
+      specialize (F1 _ E'). specialize (F2 _ E). lia. }
+    subst b. f_equal. apply IHl1; auto. intro x. split; intro Hx.
+    + destruct (proj1 (H x) (or_intror Hx)) as [E|E]; [|auto]. subst. specialize (F1 _ Hx). lia.
+    + destruct (proj2 (H x) (or_intror Hx)) as [E|E]; [|auto]. subst. specialize (F2 _ Hx). lia.
+Qed.
+
+Lemma load_vfile_spec : forall file, StronglySorted Z.lt (keys file) ->
+  (forall k b, In (k, b) file -> exists g0, WFpack g0 /\ oref g0 = k /\ b = snd (vpackvg g0)) ->
+  exists t, load_vfile file = Some t /\ keys t = keys file /\
+    (forall k g', In (k, g') t ->
+       exists g0, WFpack g0 /\ oref g0 = k /\ tget k file = Some (snd (vpackvg g0)) /\ g' = reloaded g0).
+Proof.
+  induction file as [|[k b] file]; intros S H.
+  - exists []. split; [reflexivity|]. split; [reflexivity|]. intros k g' [].
+  - cbn [keys map fst] in S. inversion S as [|? ? S' F]; subst.
+    destruct (IHfile S') as (t & L & K & T). { intros k' b' I. apply H. right; auto. }
+    destruct (H k b (or_introl eq_refl)) as (g0 & P0 & O0 & B0).
+    cbn [load_vfile]. rewrite L. subst b.
+    replace (vunpackvg k (snd (vpackvg g0))) with (vunpackvg (oref g0) (snd (vpackvg g0))) by (rewrite O0; reflexivity).
+    rewrite pack_roundtrip_lemma by auto.
+    assert (Fk : Forall (fun x => k < x) (keys t)) by (unfold keys in *; rewrite K; exact F).
+    rewrite tins_head by auto.
+    eexists. split; [reflexivity|]. split; [cbn [keys map fst]; unfold keys in *; rewrite K; reflexivity|].
+    intros k' g' [I|I].
+    + inversion I; subst k' g'. exists g0. cbn [tget]. rewrite Z.eqb_refl. auto.
+    + destruct (T k' g' I) as (g1 & P1 & O1 & T1 & R1). exists g1.
+      split; [exact P1|split; [exact O1|split; [|exact R1]]]. cbn [tget].
+      assert (k < k'). { rewrite Forall_forall in Fk. apply Fk. apply (in_map fst) in I. exact I. }
+      destruct (Z.eqb_spec k' k); [lia|exact T1].
+Qed.
+
+Lemma tmap_eq_keys : forall A B C (F : Z -> A -> C) (G : Z -> B -> C) (t1 : list (Z * A)) (t2 : list (Z * B)),
+  keys t1 = keys t2 -> (forall k v1 v2, In (k, v1) t1 -> In (k, v2) t2 -> F k v1 = G k v2) ->
+  tmap F t1 = tmap G t2.
+Proof.
+  induction t1 as [|[k v] t1]; intros [|[k2 v2] t2] K H; cbn [keys map fst] in K; try discriminate; [reflexivity|].
+  injection K as K1 K2. subst k2. cbn [tmap map fst snd]. f_equal.
+  - f_equal. apply H; left; reflexivity.
+  - apply IHt1; auto. intros. apply H; right; auto.
+Qed.
+
+Lemma attached_nil : forall k, attached_in k [] = false.
+Proof. reflexivity. Qed.
+
+Lemma sim_reopen : forall m, Inv m -> sim_step m OReopen.
+Proof.
+  intros m I. unfold sim_step. cbn [mstep step hg hs abs_state].
+  destruct (m_hg m) as [|x hgr] eqn:Ehg; [|left; reflexivity].
+  destruct (m_hs m) as [|y hsr] eqn:Ehs; [|left; reflexivity].
+  assert (Unm : forall k g, tget k (m_vg m) = Some g -> marked g = false).
+  { intros k g E. destruct (marked g) eqn:Mk; auto. pose proof (i_mk m I k g E Mk) as A. rewrite Ehg in A. discriminate. }
+  destruct (load_vfile_spec (m_file m) (i_sf m I)) as (t & L & K & T).
+  { intros k b Hin. apply tget_sorted_in in Hin; [|apply I].
+    assert (N : tget k (m_file m) <> None) by congruence.
+    apply (i_fs m I) in N. destruct (tget k (m_vg m)) as [gk|] eqn:Eg; [|contradiction].
+    destruct (i_sv m I k gk Eg (Unm k gk Eg)) as (g0 & P0 & O0 & T0 & _).
+    exists g0. split; [exact P0|split; [exact O0|congruence]]. }
+  rewrite L.
+  assert (KK : keys (m_file m) = keys (m_vg m)).
+  { apply sorted_ext; [apply I|apply I|]. intro k. split; intro Hk.
+    - apply tget_keys in Hk. destruct Hk as [b Eb]. assert (N : tget k (m_file m) <> None) by congruence.
+      apply (i_fs m I) in N. apply tget_keys. destruct (tget k (m_vg m)); [eauto|contradiction].
+    - apply tget_keys in Hk. destruct Hk as [g Eg].
+      destruct (i_sv m I k g Eg (Unm k g Eg)) as (g0 & _ & _ & T0 & _). apply tget_keys. eauto. }
+  right. cbn [fst snd]. split; [|split; [|right; reflexivity]].
+  - constructor; cbn [m_vg m_vs m_file m_hg m_hs]; try apply I.
+    + rewrite K, KK. apply I.
+    + rewrite K, KK. apply I.
+    + intros k g' E. apply tget_In in E. destruct (T k g' E) as (g0 & P0 & O0 & _ & R0). subst g'.
+      split; [apply reloaded_WFpack; auto|exact O0].
+    + intros k g' E Mk. apply tget_In in E. destruct (T k g' E) as (g0 & _ & _ & _ & R0). subst g'. discriminate.
+    + intros k g' E Mk. apply tget_In in E. destruct (T k g' E) as (g0 & P0 & O0 & T0 & R0). subst g'.
+      exists g0. split; [exact P0|split; [exact O0|split; [exact T0|symmetry; apply reloaded_core; auto]]].
+    + intros k N E. apply tget_none_notin in E. apply E. rewrite K. apply tget_keys.
+      destruct (tget k (m_file m)); [eauto|contradiction].
+    + intros h r [].
+    + intros h r [].
+  - unfold abs_state, ok0. cbn [m_vg m_vs m_hg m_hs fst]. rewrite Ehg, Ehs. f_equal.
+    unfold abs_table. apply tmap_eq_keys; [rewrite K, KK; reflexivity|].
+    intros k g' gk I1 I2. destruct (T k g' I1) as (g0 & P0 & O0 & T0 & R0). subst g'.
+    apply tget_sorted_in in I2; [|apply I].
+    destruct (i_sv m I k gk I2 (Unm k gk I2)) as (g1 & P1 & O1 & T1 & C1).
+    assert (RR : reloaded g0 = reloaded g1).
+    { pose proof (pack_roundtrip_lemma g0 P0) as R0. pose proof (pack_roundtrip_lemma g1 P1) as R1.
+      rewrite O0 in R0. rewrite O1 in R1.
+      assert (TT : snd (vpackvg g0) = snd (vpackvg g1)) by congruence. rewrite TT in R0. congruence. }
+    assert (CC : core (reloaded g0) = core gk).
+    { rewrite RR, reloaded_core by auto. exact C1. }
+    rewrite (abs_vg_core [] k gk (reloaded g0) CC). reflexivity.
+Qed.
